@@ -16,7 +16,7 @@ def host_domain():
 
 
 def tlc_histories(chk, spec, name, consts, *, invariants, properties=(), simulate=None, depth=None, seed=None,
-                  timeout=900, workers=8, key=None, max_hist=None, coverage=False):
+                  timeout=900, workers=4, key=None, max_hist=None, coverage=False):
     """Run TLC; collect the distinct printed values (the simulator re-prints retried successors)."""
     cfg = vkit.write_cfg(name, consts, invariants=invariants, properties=properties, constraint="GenConstraint")
     out, seen = [], set()
@@ -38,7 +38,7 @@ def tlc_histories(chk, spec, name, consts, *, invariants, properties=(), simulat
 RC_ALL = {"conf", "confmissing", "hosts", "hostsnull", "clearhosts", "opt"}
 LOOKUPS = ["alpha", "beta", "gamma", "delta", "eps", "zeta", "mixedcase", "localhost", "nosuch"]
 PROBES = ["p", "p.q", "p.q.r.s"]
-N_CONF, N_HOST, N_OPT = 36, 15, 33
+N_CONF, N_HOST, N_OPT = 38, 19, 38
 
 
 def rc_consts(D, *, maxlines=2, conf=None, host=None, opt=None, flags=(7,), acts=RC_ALL, known=True, rnd=False, nl=(1,)):
@@ -162,7 +162,7 @@ def plain_name(ls):
     return b"".join(bytes([len(l)]) + bytes(l) for l in ls) + b"\0"
 
 
-def validate(chk, name, vectors, *, timeout=1500, workers=8):
+def validate(chk, name, vectors, *, timeout=1500, workers=4):
     """Binding V: judge implementation-produced bytes with the reference (DnsMsgV.tla).  Returns {index: why}."""
     if not vectors:
         return {}
@@ -184,7 +184,7 @@ def validate(chk, name, vectors, *, timeout=1500, workers=8):
     return fails
 
 
-def gen_messages(chk, name, consts, *, timeout=900, workers=8):
+def gen_messages(chk, name, consts, *, timeout=900, workers=4):
     """Enumerate the adversarial message space with TLC (DnsMsgGen.tla); the reference's invariants are checked on each."""
     base = {"Mode": "reply", "QTypes": {1}, "FlagIdx": {1}, "QIdx": {1}, "RRIdx": {1}, "NsIdx": {1}, "ArIdx": {1},
             "CntIdx": {1}, "CutSet": {0}, "IdSet": {0}, "MaxAn": 1, "Random": False, "RandomN": 0}
